@@ -4,7 +4,9 @@ import (
 	"crypto/x509"
 	"crypto/x509/pkix"
 	"encoding/asn1"
+	"encoding/pem"
 	"fmt"
+	"net/url"
 	"regexp"
 	"strings"
 	"time"
@@ -223,7 +225,10 @@ func endpointMenu(good world.Response, hdrKey string) []struct {
 		{"header-no-values", hdr(map[string][]string{hdrKey: {}})},
 		{"header-two-values", hdr(map[string][]string{hdrKey: {"a", "b"}})},
 		{"header-bad-escape", hdr(map[string][]string{hdrKey: {"%zz"}})},
-		{"header-one-cert", hdr(map[string][]string{hdrKey: {firstPEM(good.Header[hdrKey])}})},
+		{"header-first-cert-only", hdr(map[string][]string{hdrKey: {firstPEM(good.Header[hdrKey])}})},
+		{"header-second-cert-only", hdr(map[string][]string{hdrKey: {secondPEM(good.Header[hdrKey])}})},
+		{"header-three-certs", hdr(map[string][]string{hdrKey: {firstPEM(good.Header[hdrKey]) + firstPEM(good.Header[hdrKey]) + secondPEM(good.Header[hdrKey])}})},
+		{"header-cert-plus-junk", hdr(map[string][]string{hdrKey: {firstPEM(good.Header[hdrKey]) + "junk"}})},
 		{"header-garbage-pem", hdr(map[string][]string{hdrKey: {"-----BEGIN%20CERTIFICATE-----%0AAAAA%0A-----END%20CERTIFICATE-----%0A-----BEGIN%20CERTIFICATE-----%0AAAAA%0A-----END%20CERTIFICATE-----%0A"}})},
 		{"header-not-pem", hdr(map[string][]string{hdrKey: {"hello"}})},
 	}
@@ -238,11 +243,32 @@ func firstPEM(vals []string) string {
 	if len(vals) == 0 {
 		return ""
 	}
-	s := vals[0]
-	if i := strings.Index(s, "-----END%20CERTIFICATE-----%0A"); i >= 0 {
-		return s[:i+len("-----END%20CERTIFICATE-----%0A")]
+	raw, err := url.QueryUnescape(vals[0])
+	if err != nil {
+		return vals[0]
 	}
-	return s
+	blk, _ := pem.Decode([]byte(raw))
+	if blk == nil {
+		return vals[0]
+	}
+	return url.QueryEscape(string(pem.EncodeToMemory(blk)))
+}
+
+// secondPEM is the issuer-chain header value with only its second certificate.
+func secondPEM(vals []string) string {
+	if len(vals) == 0 {
+		return ""
+	}
+	raw, err := url.QueryUnescape(vals[0])
+	if err != nil {
+		return vals[0]
+	}
+	_, rest := pem.Decode([]byte(raw))
+	blk, _ := pem.Decode(rest)
+	if blk == nil {
+		return vals[0]
+	}
+	return url.QueryEscape(string(pem.EncodeToMemory(blk)))
 }
 
 func c10Endpoints(r *mc.Run, b *c01base) {
